@@ -130,7 +130,7 @@ impl FromStrOwned for Fen {
 /// targeted single faults of the classes the property lists
 pub fn targeted_fault(rng: &mut StdRng, fen: &str) -> String {
     let mut f: Vec<String> = fen.split(' ').map(|s| s.to_string()).collect();
-    match rng.gen_range(0..14) {
+    match rng.gen_range(0..17) {
         0 => { f.truncate(rng.gen_range(0..4)); }
         1 => { f.truncate(5); }
         2 => { f.push(["1", "w", "-", "x"].choose(rng).unwrap().to_string()); }
@@ -161,6 +161,19 @@ pub fn targeted_fault(rng: &mut StdRng, fen: &str) -> String {
         10 => { if f.len() == 6 { f[4] = ["x", "-1", "1.5", "a1", "1e3"].choose(rng).unwrap().to_string(); } }
         11 => { if f.len() == 6 { f[5] = ["x", "-1", "1.5", "one", "0x10"].choose(rng).unwrap().to_string(); } }
         12 => { f[0] = f[0].replace('/', ""); }
+        14 => {
+            // a field separator that is white space but not the blank the grammar asks for
+            let ws = *['\t', '\n', '\r', '\u{000B}', '\u{000C}', '\u{0085}', '\u{00A0}', '\u{1680}', '\u{2003}', '\u{2028}', '\u{3000}'].choose(rng).unwrap();
+            let i = rng.gen_range(0..f.len() - 1);
+            let mut out = String::new();
+            for (j, part) in f.iter().enumerate() {
+                out.push_str(part);
+                if j + 1 < f.len() { out.push(if j == i { ws } else { ' ' }); }
+            }
+            return out;
+        }
+        15 => { if f.len() == 6 { let k = 4 + rng.gen_range(0..2); f[k] = format!("{}{}", ["+", "+", "-", " +", "0+", "+-"].choose(rng).unwrap(), f[k]); } }
+        16 => { if f.len() == 6 { let k = 4 + rng.gen_range(0..2); f[k] = format!("{}{}", f[k], ["+", "_", ".", "u32", "e0", "\u{0660}"].choose(rng).unwrap()); } }
         _ => { f[0] = f[0].replacen('/', "//", 1); }
     }
     f.join(" ")
